@@ -38,3 +38,134 @@ def with_crc_trailer(crc, body):
     if crc:
         return body + be(2, crc16(body))
     return body
+
+
+# ---- TLV items, 727.0-B-5 section 5.4 (tables 5-15 ... 5-20)
+
+def tlv_type_known(t):
+    """TLV type codes of table 5-3 / section 5.4: 00 filestore request, 01 filestore response, 02 message to user,
+    04 fault handler override, 05 flow label, 06 entity ID"""
+    return either(t == 0, t == 1, t == 2, t == 4, t == 5, t == 6)
+
+
+def fs_action_known(action):
+    """filestore action codes of table 5-16: 0 create file ... 8 deny directory"""
+    return both(0 <= action, action <= 8)
+
+
+def fs_second_name(action):
+    """table 5-16: a second file name is present for rename (2), append (3) and replace (4) only"""
+    return either(action == 2, action == 3, action == 4)
+
+
+def fs_request_octets(action, name1, name2):
+    """5.4.1: type 00; value = action code (4 bits), 4 spare bits, first file name LV, second file name LV (present
+    only for the action codes that take two names).  name1/name2 are the octets of the names."""
+    v = be(1, action * 16) + lv(name1)
+    if fs_second_name(action):
+        v = v + lv(name2)
+    return tlv(0, v)
+
+
+def fs_response_octets(action, status, name1, name2, msg):
+    """5.4.2: type 01; value = action code (4 bits), status code (4 bits), first file name LV, second file name LV
+    (as in the request), filestore message LV"""
+    v = be(1, action * 16 + status) + lv(name1)
+    if fs_second_name(action):
+        v = v + lv(name2)
+    return tlv(1, v + lv(msg))
+
+
+def msg_to_user_octets(msg):
+    """5.4.3: type 02, value = the message"""
+    return tlv(2, msg)
+
+
+def fault_handler_octets(condition, handler):
+    """5.4.4: type 04, value = condition code (4 bits), handler code (4 bits)"""
+    return tlv(4, be(1, condition * 16 + handler))
+
+
+def flow_label_octets(label):
+    """5.4.5: type 05, value = the flow label"""
+    return tlv(5, label)
+
+
+def entity_id_octets(entity_id):
+    """5.4.6: type 06, value = the entity ID"""
+    return tlv(6, entity_id)
+
+
+# ---- reserved CFDP messages (727.0-B-5 section 6): message to user whose first four octets are ASCII "cfdp",
+#      followed by the message-type octet and the fields of that message type
+
+MSG_PROXY_PUT_REQUEST = 0x00
+MSG_PROXY_TRANSMISSION_MODE = 0x04
+MSG_PROXY_PUT_RESPONSE = 0x07
+MSG_PROXY_PUT_CANCEL = 0x09
+MSG_ORIGINATING_TRANSACTION_ID = 0x0A
+MSG_PROXY_CLOSURE_REQUEST = 0x0B
+MSG_DIRECTORY_LISTING_REQUEST = 0x10
+MSG_DIRECTORY_LISTING_RESPONSE = 0x11
+MSG_CUSTOM_LISTING_PARAMETERS = 0x15     # not in the standard: the library's own listing-options message
+
+
+def cfdp_marker():
+    """ASCII 'cfdp'"""
+    return be(1, 0x63) + be(1, 0x66) + be(1, 0x64) + be(1, 0x70)
+
+
+def reserved_msg_octets(msg_type, fields):
+    return tlv(2, cfdp_marker() + be(1, msg_type) + fields)
+
+
+def is_reserved_content(v):
+    """6.1: a message to user is a reserved CFDP message iff it starts with 'cfdp' and has a message-type octet"""
+    if len(v) < 5:
+        return False
+    return v[0:4] == cfdp_marker()
+
+
+def proxy_put_request_fields(dest_id, source_name, dest_name):
+    """6.2.2: LV destination entity ID, LV source file name, LV destination file name"""
+    return lv(dest_id) + lv(source_name) + lv(dest_name)
+
+
+def proxy_put_response_fields(condition, delivery, file_status):
+    """6.2.9: condition code (4 bits), spare, delivery code (1 bit), file status (2 bits)"""
+    return be(1, condition * 16 + delivery * 4 + file_status)
+
+
+def one_bit_field(b):
+    """6.2.6 transmission mode / 6.2.12 closure requested: 7 spare bits, 1 bit"""
+    if b:
+        return be(1, 1)
+    return be(1, 0)
+
+
+def originating_transaction_id_fields(we, src, ws, seq):
+    """6.2.11: reserved bit, entity-ID length - 1 (3 bits), reserved bit, sequence-number length - 1 (3 bits) |
+    source entity ID | transaction sequence number"""
+    return be(1, (we - 1) * 16 + (ws - 1)) + be(we, src) + be(ws, seq)
+
+
+def dir_listing_request_fields(dir_name, dir_file_name):
+    """6.3.2: LV directory name, LV directory file name"""
+    return lv(dir_name) + lv(dir_file_name)
+
+
+def dir_listing_response_fields(success, dir_name, dir_file_name):
+    """6.3.3: listing response code in the most significant bit, 7 spare bits | LV directory name | LV directory file name"""
+    if success:
+        return be(1, 128) + lv(dir_name) + lv(dir_file_name)
+    return be(1, 0) + lv(dir_name) + lv(dir_file_name)
+
+
+def dir_listing_options_fields(recursive, all_files):
+    """library-specific: 6 spare bits, recursive, all"""
+    r = 0
+    if recursive:
+        r = 2
+    if all_files:
+        return be(1, r + 1)
+    return be(1, r)
